@@ -26,6 +26,17 @@ def containers_in(v, acc=None):
     return acc
 
 
+def deep_plain(o):
+    """The in-memory content as plain data, walked by the harness itself (no library conversion involved)."""
+    if is_synced(o):
+        o = raw_data(o)
+    if isinstance(o, dict):
+        return {k: deep_plain(v) for k, v in o.items()}
+    if isinstance(o, (list, tuple)):
+        return [deep_plain(v) for v in o]
+    return copy.deepcopy(o)
+
+
 def scribble(v, g):
     """Mutate every container reachable from v."""
     for c in containers_in(v):
@@ -61,7 +72,12 @@ def run_c16(prop, tier, seed):
                   base = [1] + base + [{"m": [2, {"n": 3}]}, [4]]
               else:
                   base["mixed"] = [1, {"m": [2]}, [3]]
-              x.reset(copy.deepcopy(base))
+              try:
+                  x.reset(copy.deepcopy(base))
+              except Exception as e_:  # noqa
+                  res["oracle_failures"].append({"oracle": "C16-accept", "cls": cls.__name__, "case": i, "seed": seed,
+                                                 "detail": f"reset() with valid plain data {jsonable(base)} raised {type(e_).__name__}: {e_}"})
+                  continue
               mode = "unbuffered"
               if hasattr(cls, "buffer_backend") and g.r.random() < 0.6:
                   mode = g.r.choice(["obj", "cls", "cls>obj"])
@@ -71,7 +87,14 @@ def run_c16(prop, tier, seed):
                       stack.enter_context(x.buffered)
 
               def snapshot():
-                  return copy.deepcopy(x._to_base()), copy.deepcopy(st.read()), copy.deepcopy(x())
+                  called = x()
+                  try:
+                      called = copy.deepcopy(called)
+                  except Exception as e_:  # noqa
+                      res["oracle_failures"].append({"oracle": "C16-plain", "cls": cls.__name__, "case": i, "seed": seed,
+                                                     "detail": f"the result of () cannot be deep-copied ({type(e_).__name__}: {e_}): it contains a live synced collection"})
+                      called = x._to_base()
+                  return deep_plain(x), copy.deepcopy(st.read()), called
 
               def check(tag, before, detail):
                   after = snapshot()
@@ -723,4 +746,74 @@ def run_c01_faults(prop, tier, seed):
     res.update(evaluations=ev, distinct_nontrivial=len(res["stats"]), traces=0,
                rule="(JSON class, root/nested position, mutator method, fault in the write path): the mutator either raises or the file holds the new content; "
                     "distinct = (class, position, kind, method)")
+    return res
+
+
+# ------------------------------------------------------------------------------------------ C14: a reader exactly at the rename
+def run_c14_reader_at_rename(prop, tier, seed):
+    """A reader on ANOTHER object bound to the file is run at the two instants no Python-level scheduler can reach: right
+    before and right after the writer's os.replace (simulated by wrapping os.replace).  It must see the old or the new
+    content, never an error or an impossible state."""
+    ns = import_library()
+    cj = ns.cj
+    tmp = tempfile.mkdtemp(prefix="verif_c14r_")
+    res = {"name": "C14-reader-at-rename", "model_mismatches": [], "oracle_failures": [], "samples": [], "stats": {}}
+    ev = 0
+    real_replace = os.replace
+    try:
+        classes = [c for c in ns.all_classes if c.__module__.endswith("collection_json")]
+        for ci, cls in enumerate(classes):
+            is_list = cls.__name__.endswith("List")
+            for size in ("small", "large"):
+                for ctx in (["none"] + (["obj", "cls"] if hasattr(cls, "buffer_backend") else [])):
+                    fn = os.path.join(tmp, f"r{ci}_{size}_{ctx}.json")
+                    pad = "x" * (20000 if size == "large" else 5)
+                    old = [1, pad] if is_list else {"a": 1, "pad": pad}
+                    with open(fn, "w") as fh:
+                        json.dump(old, fh)
+                    w, r = cls(fn), cls(fn)
+                    w(); r()
+                    seen = []
+
+                    def spy(src, dst, _r=r, _seen=seen):
+                        for when in ("before", "after"):
+                            if when == "after":
+                                real_replace(src, dst)
+                            try:
+                                _seen.append((when, "ok", copy.deepcopy(_r())))
+                            except Exception as e:  # noqa
+                                _seen.append((when, "err", f"{type(e).__name__}: {e}"))
+                    cj.os.replace = spy
+                    os.replace = spy
+                    try:
+                        with contextlib.ExitStack() as stack:
+                            if ctx == "obj":
+                                stack.enter_context(w.buffered)
+                            elif ctx == "cls":
+                                stack.enter_context(cls.buffer_backend())
+                            if is_list:
+                                w.append({"new": 1})
+                            else:
+                                w["new"] = {"n": 1}
+                    finally:
+                        os.replace = real_replace
+                        cj.os.replace = real_replace
+                        if hasattr(cls, "_buffer"):
+                            cls._buffer.clear(); cls._buffered_collections.clear(); cls._CURRENT_BUFFER_SIZE = 0; cls._buffer_context._count = 0
+                    new = (old + [{"new": 1}]) if is_list else dict(old, new={"n": 1})
+                    ev += len(seen)
+                    if not seen:
+                        res["model_mismatches"].append({"correspondence": "C14 reader probe", "detail": f"{cls.__name__}/{ctx}: the save did not go through os.replace"})
+                    for when, st_, val in seen:
+                        if st_ == "err" or not (strict_eq(val, old) or strict_eq(val, new)):
+                            res["oracle_failures"].append({"oracle": "C14-reader-at-rename", "cls": cls.__name__, "context": ctx, "document": size,
+                                                           "detail": f"a reader on another object, run right {when} the writer's rename, got {str(val)[:200]}"})
+                    key = f"{cls.__name__}:{ctx}:{size}"
+                    res["stats"][key] = len(seen)
+        res["samples"] = [{"class": classes[0].__name__, "reads": 2}]
+    finally:
+        os.replace = real_replace
+        shutil.rmtree(tmp, ignore_errors=True)
+    res.update(evaluations=ev, distinct_nontrivial=len(res["stats"]), traces=0,
+               rule="(JSON class, context kind, document size): a second object reads right before and right after the writer's rename; distinct = the triple")
     return res
